@@ -130,6 +130,11 @@ def from_zeep(S, ir, t, o, tq):
             fn, ft = fl[0]
             out[fn] = from_zeep(S, ir, ft, o, be[fn]['type'])
             return out
+        if not hasattr(o, '__values__') and not isinstance(o, dict) and any('xmldata' in ft for _, ft in fl):
+            # simpleContent without attributes set: zeep hands over the bare text value
+            for fn, ft in fl:
+                out[fn] = from_zeep(S, ir, ft['xmldata'], o, simple) if 'xmldata' in ft else None
+            return out
         for fn, ft in fl:
             if 'attr' in ft:
                 x = _get(o, fn)
